@@ -95,6 +95,26 @@ class Prop(PropBase):
             out["err"] = err_name(e)
             return out
         N = case["N"]
+        if case["seed"] % 3 == 0:
+            # history / joint evaluation: repeat the call after a decoy call on a signal that differs only in its sample rate
+            # (same shapes, dtypes and shift in Hz); evaluate two shifts of one Dask-backed signal in ONE graph
+            try:
+                import dask
+                import dask.array as da
+                decoy = type(z).like(z, sample_rate=z.sample_rate * 2)
+                d = pb.freq_shift(decoy, q)                 # same data, shapes and shift in Hz, twice the rate: half the bins
+                half = pb.freq_shift(z, q * 0.5)            # ... which is what q/2 does at the original rate (same ft bit for bit)
+                again = pb.freq_shift(z, q)
+                out["repeat_same"] = bool(np.array_equal(np.asarray(again.data), np.asarray(y.data))
+                                          and np.array_equal(np.asarray(d.data), np.asarray(half.data)))
+                zd = type(z).like(z, da.from_array(np.asarray(z.data), chunks=(-1,) + (1,) * (z.ndim - 1)))
+                l1, l2 = pb.freq_shift(zd, q), pb.freq_shift(zd, q * 0.5)
+                a1, a2 = l1.data.compute(scheduler="synchronous"), l2.data.compute(scheduler="synchronous")
+                j1, j2 = dask.compute(l1.data, l2.data, scheduler="synchronous")
+                out["joint_same"] = bool(np.array_equal(j1, a1) and np.array_equal(j2, a2))
+                out["lazy_close"] = bool(np.allclose(a1, np.asarray(y.data), rtol=1e-4, atol=1e-4 * float(np.max(np.abs(np.asarray(z.data))))))
+            except Exception as e:  # noqa
+                out["joint_err"] = err_name(e)
         out["meta"] = bool(type(y) is type(z) and y.dtype == z.dtype and y.shape == z.shape and y.sample_rate == z.sample_rate
                            and bool(y.start_time == z.start_time) and y.center_freq == z.center_freq
                            and y.freq_align == z.freq_align and getattr(y, "pol_type", None) == getattr(z, "pol_type", None))
@@ -147,6 +167,15 @@ class Prop(PropBase):
             return f"raised {code['err']}"
         if not code["meta"]:
             return "type / dtype / shape / sample_rate / start_time / frequency labels changed"
+        if code.get("repeat_same") is False:
+            return ("the same freq_shift call repeated after a call on a signal with another sample rate (same shapes, same shift in Hz) "
+                    "returned different values")
+        if code.get("joint_same") is False:
+            return "two different shifts of one Dask-backed signal evaluated in one graph differ from the results computed alone"
+        if code.get("lazy_close") is False:
+            return "the Dask-backed result differs from the NumPy-backed one"
+        if "joint_err" in code:
+            return f"freq_shift on the Dask-backed copy / decoy raised {code['joint_err']}"
         N = case["N"]
         seen = np.array([float(F(v)) for v in code["seen"]]).reshape(code["seen_shape"])
         per = np.broadcast_to(seen, (1,) + tuple(case["sshape"])).reshape(-1)
